@@ -315,7 +315,11 @@ shutil.rmtree(base)
         p = subprocess.run(["strace", "-f", "-o", logf, "-e", "trace=inotify_init,inotify_init1,pipe,pipe2,close,read,write,poll,inotify_add_watch,inotify_rm_watch",
                             sys.executable, sf], env=env, capture_output=True, timeout=120)
         if p.returncode != 0 or not os.path.exists(logf):
-            b.inconc(f"strace cross-check could not run: rc={p.returncode} {p.stderr[-200:]!r}")
+            err = p.stderr.decode("utf8", "replace")
+            if "instance limit" in err or "Errno 24" in err or "watch limit" in err:
+                b.count("cases_skipped_for_lack_of_inotify_instances")
+                return
+            b.inconc(f"strace cross-check could not run: rc={p.returncode} {err[-300:]!r}")
             return
         import re
 
